@@ -1625,3 +1625,254 @@ def c16_sig(t, e, kinds, why):
         return 'C16:uri-escape-multibyte'
     ntag = sum(1 for l in t.split('\n') if l.startswith('%TAG'))
     return None
+
+
+# ---------------------------------------------------------------------------------------------
+# C18: byte input
+
+def encodings_of(text):
+    """the six encodings of C18 (text without a BOM of its own)"""
+    u8 = text.encode('utf8')
+    le = text.encode('utf-16-le')
+    be = text.encode('utf-16-be')
+    return [('utf8', u8), ('utf8+bom', b'\xef\xbb\xbf' + u8), ('utf16le', le), ('utf16le+bom', b'\xff\xfe' + le),
+            ('utf16be', be), ('utf16be+bom', b'\xfe\xff' + be)]
+
+
+def iters_of(a):
+    try:
+        return int(a.split(' ; iters=')[1].split(' ')[0])
+    except (IndexError, ValueError):
+        return 0
+
+
+@prop('C18', ["documents decoded from each encoding are compared with the documents loaded from the text directly (implementation vs implementation)",
+              "termination is observed through the verif-hooks iteration cap of decode_loop (a hang becomes the outcome HANG) — the hook records (bytes read, output length, capacity) per iteration",
+              "theorems registered: see Props/C18.lean (encoding detection; termination of the decode loop over an abstract decoder contract)"])
+def c18(tier, rng):
+    res = Result()
+    L = 4 if tier == 'quick' else 6
+    res.rule = f"texts (ASCII, Latin, CJK, astral; lengths 0..4k, mostly short) x 6 encodings x 4 traps; every byte string of length <= {L} over the ten bytes of the property x 4 traps; random and truncated byte strings; non-trivial = a non-empty byte string; distinct by (bytes, trap)"
+    res.corr_ops = ['sniff (encoding detection) as reported by dec']
+    r = rng.fork('c18')
+    pools = ['ab:- [],\n', 'aé ü\n', 'a中文字-\n', 'a\U0001D11E\U0001F600 \n', 'k: v\n- a\n']
+    texts = ['\0a', 'a\0: b', 'a\0b', '', 'a', '-', '- a', 'a: b', 'a: é', '- 中', '-中中中', '-中中中中', '-中中中中中', '- \U0001D11E', '[1, 2]', 'a\n', 'é', ' a']
+    for _ in range(1500 if tier == 'quick' else 60000):
+        n = r.choice([0, 1, 2, 3, 4, 5, 6, 7, 8, 9, 10, 11, 12, 15, 20, 40, 100, 400] + ([4000] if r.chance(1, 30) else []))
+        pool = r.choice(pools)
+        first = r.choice('a-k[ "')
+        t = (first + ''.join(r.choice(pool) for _ in range(max(n - 1, 0)))) if n else ''
+        texts.append(t)
+    reqs, meta = [], []
+    ref = run_impl([f'lod y e {hx(t)}' for t in texts])
+    for t, rf in zip(texts, ref):
+        for name, b in encodings_of(t):
+            for trap in ('s', 'i', 'r', 'c') if len(t) < 12 else ('s',):
+                reqs.append(f'dec {trap} {hxb(b)}')
+                meta.append(('text', t, name, trap, rf))
+    ALPH = [0x00, 0x0A, 0x20, 0x2D, 0x41, 0x80, 0xC3, 0xE4, 0xFE, 0xFF]
+    import itertools
+    for n in range(0, L + 1):
+        for bs in itertools.product(ALPH, repeat=n):
+            for trap in ('s', 'i', 'r', 'c') if n <= 3 else ('s', 'r'):
+                reqs.append(f'dec {trap} {hxb(bytes(bs))}')
+                meta.append(('bytes', bytes(bs), None, trap, None))
+    for _ in range(3000 if tier == 'quick' else 100000):
+        t = r.choice(texts)
+        name, b = r.choice(encodings_of(t))
+        b = bytearray(b)
+        k = r.below(4)
+        if k == 0 and b:
+            b = b[:r.below(len(b))]
+        elif k == 1 and b:
+            b[r.below(len(b))] = r.below(256)
+        elif k == 2:
+            b += bytes([r.below(256) for _ in range(r.randint(1, 3))])
+        else:
+            b = bytes([r.below(256) for _ in range(r.randint(1, 24))])
+        trap = r.choice('sirc')
+        reqs.append(f'dec {trap} {hxb(bytes(b))}')
+        meta.append(('bytes', bytes(b), None, trap, None))
+    impl = run_impl(reqs)
+    for n, (kind, x, name, trap, rf) in enumerate(meta):
+        res.evaluations += 1
+        a = impl[n]
+        if len(x) > 0:
+            res.nt(reqs[n])
+        body = a.split(' ; ')[0]
+        res.count(f'{kind}:{trap}:{body.split(" ")[0]}')
+        why, sig = None, None
+        if body == 'HANG' or a.startswith('CRASH') or a == 'UNANSWERED':
+            why, sig = 'decoding does not terminate', 'C18:decode-loop-spins' if body == 'HANG' else None
+        elif 'PANIC' in a:
+            why = 'decoder panicked'
+        elif iters_of(a) > len(x if kind == 'bytes' else dict(encodings_of(x))[name]) + 8:
+            why = f'decode loop took {iters_of(a)} iterations'
+        elif kind == 'text':
+            want = rf if rf.startswith('OK') else rf
+            if body != want:
+                why = f'{name}: decoded documents differ from loading the text directly'
+                if '\0' in x[:2]:
+                    sig = 'C18:nul-sniffed-as-utf16'
+        else:
+            if trap == 's' and not (body.startswith('OK') or body.startswith('DECERR') or body.startswith('ERR')):
+                why = 'strict trap: neither documents nor an error'
+        if why:
+            res.oracle_failures.append({'sig': sig or usig(reqs[n]), 'what': why, 'reqs': [reqs[n]], 'input': (repr(x[:60]) + f' encoding={name} trap={trap}'),
+                                        'detail': {'decoded': a[:300], 'direct': (rf or '')[:300]}})
+        if n % 30011 == 0:
+            res.samples.append({'kind': kind, 'input': repr(x[:40]), 'encoding': name, 'trap': trap, 'result': a[:100]})
+    return res
+
+
+# ---------------------------------------------------------------------------------------------
+# C20: lookups, equality, hashing
+
+KEYS20 = ['a', 'b', 'key', '1', '01', '1.0', '1.5', 'true', 'false', 'null', '~', '"1"', "'true'", '"a"', '!!str 1', '!!str true', '!!int 1', '[a]', '{a: b}', '[]', '""', "''",
+          'é', '"\\n"', 'a b', '0x1', '.inf', '!!float 1', '!foo a', '&x a', '? ', '-1', '+1', '2', '0', '3']
+PROBES20 = ['a', 'b', 'key', '1', '01', '1.0', '1.5', 'true', 'false', 'null', '~', '', 'é', '\n', 'a b', '0x1', '.inf', 'absent', 'A', ' a', '[a]', '{a: b}', '-1', '+1', '2', '0']
+
+
+def top_pairs(tokens):
+    """(key node, value node) pairs of a top-level mapping dump (token list), nodes as token lists"""
+    if not tokens or not tokens[0].partition('@')[0].startswith('M:'):
+        return None
+    n = int(tokens[0].partition('@')[0][2:])
+    i = 1
+    out = []
+
+    def take(i):
+        _, j = parse_tree_tokens(tokens, i)
+        return tokens[i:j], j
+    for _ in range(n):
+        k, i = take(i)
+        v, i = take(i)
+        out.append((k, v))
+    return out
+
+
+@prop('C20', ["the expected answer is computed from the loaded document's own dump: an entry is found exactly when some key is the resolved string k",
+              "hash-stream equality (a recording Hasher) is checked by the harness for every pair of equal keys and for borrowed vs owned copies",
+              "theorems registered: see Props/C20.lean (lookup model: the four ways agree; found iff a string key equals k)"])
+def c20(tier, rng):
+    res = Result()
+    res.rule = "random flow mappings over a pool of 36 key spellings (strings, numbers, null, booleans, quoted, tagged, anchored, collection and empty keys) x probes drawn from the keys' texts and absent strings x 4 node kinds x {eager, lazy}; integer indexing of sequences and mappings; non-trivial = mapping with at least two keys; distinct by (text, probe, kind, mode)"
+    res.corr_ops = ['lod (the loaded mapping) — the lookup itself is compared with the expectation computed from the dump']
+    r = rng.fork('c20')
+    cases = []
+    for _ in range(6000 if tier == 'quick' else 250000):
+        if r.chance(1, 6):
+            items = [r.choice(['a', '1', 'true', '[x]', '~']) for _ in range(r.randint(0, 4))]
+            text = '[' + ', '.join(items) + ']\n'
+        else:
+            ks = []
+            for _ in range(r.randint(0, 5)):
+                k = r.choice(KEYS20)
+                if k not in ks:
+                    ks.append(k)
+            text = '{' + ', '.join(f'{k}: v{i}' for i, k in enumerate(ks)) + '}\n'
+        probe = r.choice(PROBES20)
+        idx = r.choice(['-', '0', '1', '2', '3', '7'])
+        nk = r.choice(['y', 'yo', 'm', 'mo'])
+        mode = 'e' if r.chance(4, 5) else 'l'
+        cases.append((text, probe, idx, nk, mode))
+    reqs = []
+    for text, probe, idx, nk, mode in cases:
+        reqs += [f'get {nk} {mode} {hx(probe)} {idx} {hx(text)}', f'lod y {mode} {hx(text)}']
+    impl = run_impl(reqs)
+    model = run_model([reqs[i] for i in range(1, len(reqs), 2)])
+    for n, (text, probe, idx, nk, mode) in enumerate(cases):
+        res.evaluations += 1
+        a, d = impl[2 * n], impl[2 * n + 1]
+        if canon_tree_line(model[n]) != d:
+            diff(res, reqs[2 * n + 1], d, model[n], 'lod')
+        if a in ('LOADERR', 'NODOC') or not d.startswith('OK'):
+            res.count('not-loaded')
+            continue
+        if 'PANIC' == a or a.startswith('CRASH'):
+            res.oracle_failures.append({'sig': usig(reqs[2 * n]), 'what': 'lookup panicked outside Index', 'reqs': [reqs[2 * n]], 'input': repr(text)})
+            continue
+        f = dict(x.split('=', 1) for x in a.split(' '))
+        doc = docs_of(d)[0]
+        pairs = top_pairs(doc)
+        if pairs is not None and len(pairs) >= 2:
+            res.nt(reqs[2 * n])
+        res.count(f'{nk}/{mode}:' + ('map' if pairs is not None else 'other'))
+        want = '-'
+        if pairs is not None:
+            for k, v in pairs:
+                if len(k) == 1 and k[0] == 'S:' + hx(probe):
+                    want = ','.join(x.partition('@')[0] for x in v)
+        strip = lambda s: ','.join(x.partition('@')[0] for x in s.split(';')) if s not in ('-', 'PANIC') else s
+        got = {k: strip(f[k]) for k in ('get', 'index', 'explicit')}
+        why = None
+        if got['get'] != want:
+            why = f"as_mapping_get gives {got['get'][:40]} where the mapping holds {want[:40]}"
+        elif (f['contains'] == 'true') != (want != '-'):
+            why = 'contains_mapping_key disagrees with as_mapping_get'
+        elif got['index'] != (want if want != '-' else 'PANIC'):
+            why = f"indexing gives {got['index'][:40]} (get gives {want[:40]})"
+        elif got['explicit'] != want:
+            why = f"lookup with an explicitly built string node gives {got['explicit'][:40]} (get gives {want[:40]})"
+        elif f['keys'] not in ('ok', '-'):
+            why = f"hash/equality inconsistency among keys: {f['keys']}"
+        elif f['int'] != '-':
+            bi, _, bg = f['int'].partition('|')
+            bi, bg = strip(bi), strip(bg)
+            if d.startswith('OK Q:'):
+                if (bi == 'PANIC') != (bg == '-') or (bi != 'PANIC' and bi != bg):
+                    why = f'integer indexing of a sequence ({bi[:30]}) disagrees with get ({bg[:30]})'
+            elif pairs is not None:
+                wanti = 'PANIC'
+                for k, v in pairs:
+                    if len(k) == 1 and k[0] == f'I:{idx}':
+                        wanti = ','.join(x.partition('@')[0] for x in v)
+                if bi != wanti:
+                    why = f'integer indexing of a mapping gives {bi[:30]} where the entry for Integer({idx}) is {wanti[:30]}'
+        if why:
+            res.oracle_failures.append({'sig': usig(reqs[2 * n]), 'what': why, 'reqs': [reqs[2 * n], reqs[2 * n + 1]], 'input': repr(text) + f' probe {probe!r} kind {nk} mode {mode}', 'detail': a[:400]})
+        if n % 1501 == 0:
+            res.samples.append({'text': text, 'probe': probe, 'kind': nk, 'mode': mode, 'answers': a[:200]})
+    return res
+
+
+# ---------------------------------------------------------------------------------------------
+# C11: nesting depth
+
+@prop('C11', ["each scenario runs in a child process of the harness on the main thread (8 MiB stack); the observation is the exit status (0 = Ok, 3 = error value, anything else = abort)",
+              "the model exhibits recursion depth, not stack bytes: theorems relate the push interface's recursion depth to the nesting depth of the event stream (Props/C11.lean)"])
+def c11(tier, rng):
+    import subprocess
+    res = Result()
+    depths = [1, 10, 100, 1000, 10000] + ([100000] if tier == 'thorough' else [30000])
+    res.rule = f"nesting depth in {depths} x shape (block sequence, block mapping, explicit key, flow sequence, flow mapping, alternating) x API (iterator, push, load_from_str + drop, emit); non-trivial = depth >= 10"
+    res.corr_ops = []
+    def run(api, shape, depth):
+        try:
+            p = subprocess.run([IMPL, '--deep', api, shape, str(depth)], capture_output=True, timeout=600)
+            return p.returncode
+        except subprocess.TimeoutExpired:
+            return 'timeout'
+    # the block-mapping shape needs growing indentation: its text is quadratic in the depth, so it is capped
+    jobs = [(api, shape, d) for api in ('iter', 'load', 'loaddrop', 'emit') for shape in ('seq', 'map', 'key', 'fseq', 'fmap', 'alt') for d in depths
+            if not (api == 'emit' and shape != 'seq') and not (shape == 'map' and d > 10000)]
+    from concurrent.futures import ThreadPoolExecutor
+    with ThreadPoolExecutor(max_workers=8) as ex:
+        rcs = list(ex.map(lambda j: run(*j), jobs))
+    status = {j: rc for j, rc in zip(jobs, rcs)}
+    for (api, shape, d), rc in zip(jobs, rcs):
+        res.evaluations += 1
+        if d >= 10:
+            res.nt(f'{api}{shape}{d}')
+        res.count(f'{api}:{"ok" if rc == 0 else "err" if rc == 3 else "abort"}')
+        if rc not in (0, 3):
+            sig = usig(f'{api}{shape}')
+            # narrow signatures: the tree can be parsed (push interface survives the same input) but
+            # releasing / emitting the deeply nested tree recurses once per level
+            if api == 'loaddrop' and status.get(('load', shape, d)) == 0 and d >= 50000:
+                sig = 'C11:drop-recursion-deep-tree'
+            elif api == 'emit' and d >= 50000:
+                sig = 'C11:emit-recursion'
+            res.oracle_failures.append({'sig': sig, 'what': f'{api} on {shape} nesting of depth {d}: the process died (status {rc})', 'reqs': [f'--deep {api} {shape} {d}'], 'input': f'{shape} x {d}'})
+    res.samples = [{'api': j[0], 'shape': j[1], 'depth': j[2], 'status': rc} for j, rc in list(zip(jobs, rcs))[:6]]
+    return res
